@@ -145,6 +145,14 @@ def stmts(body, env, helpers, cont):
             and isinstance(s.value, ast.Call) and getattr(s.value.func, "id", None) == "cast"
             and len(s.value.args) == 2 and getattr(s.value.args[1], "id", None) == "other"):
         return stmts(rest, env, helpers, cont)
+    if (isinstance(s, (ast.Assign, ast.AnnAssign)) and isinstance(s.value, ast.Call) and getattr(s.value.func, "id", None) == "cast"
+            and len(s.value.args) == 2 and not s.value.keywords and isinstance(s.value.args[1], ast.Name) and s.value.args[1].id in env):
+        # `y = cast(T, x)` to a fresh local: typing.cast returns its second argument - y is another name of x
+        tgt = s.targets[0] if isinstance(s, ast.Assign) and len(s.targets) == 1 else getattr(s, "target", None)
+        if isinstance(tgt, ast.Name) and tgt.id not in env and tgt.id not in ("self", "other", "gt", "time"):
+            env2 = dict(env)
+            env2[tgt.id] = env[s.value.args[1].id]
+            return stmts(rest, env2, helpers, cont)
     if isinstance(s, (ast.Assign, ast.AnnAssign)):
         # `x = <value or test>` to a fresh local (extract-variable refactorings)
         tgt = s.targets[0] if isinstance(s, ast.Assign) and len(s.targets) == 1 else getattr(s, "target", None)
